@@ -1,0 +1,48 @@
+//go:build verif
+
+// Contracts for package macro (comment-only; checked by /verif/bin/rlverify).
+
+package macro
+
+// C18: replaying a keyboard macro equals retyping its keys.
+// recorded keys --EscapeMacro--> stored text --Unescape--> fed keys --PopKey--> dispatched bytes.
+
+//@ pred mvalid(e *Engine) = e != nil && e.keys != nil && e.hint != nil && e.macros != nil
+
+//@ func RecordKeys
+//@   props C18 C01
+//@   terminates
+//@   requires mvalid(eng)
+//@   assigns eng.current, eng.started, anyof("ui.Hint", "*")
+//@   ensures [records-matched-keys] old(eng.recording) && !old(eng.keys.mustWait) && old(len(eng.keys.matched)) > 0 && !old(eng.started) ==> eng.current == old(eng.current) + old(eng.keys.matched)
+//@   ensures [skips-the-start-key] old(eng.recording) && !old(eng.keys.mustWait) && old(len(eng.keys.matched)) > 0 && old(eng.started) ==> eng.current == old(eng.current) && !eng.started
+//@   ensures [idle] !old(eng.recording) || old(eng.keys.mustWait) || old(len(eng.keys.matched)) == 0 ==> eng.current == old(eng.current) && eng.started == old(eng.started)
+
+//@ func (*Engine).StopRecord
+//@   props C18 C01
+//@   terminates
+//@   requires mvalid(e)
+//@   assigns e.recording, e.current, mapof(e.macros), anyof("ui.Hint", "*")
+//@   ensures !e.recording
+//@   ensures [stores-escaped-keys] old(len(e.current)) > 0 ==> has(e.macros, e.currentKey) && has(e.macros, 0) && e.macros[e.currentKey] == inputrc.escm(str(old(e.current) + keys)) && e.macros[0] == inputrc.escm(str(old(e.current) + keys)) && len(e.current) == 0
+//@   ensures [nothing-recorded] old(len(e.current)) == 0 ==> allkeys(k, e.macros, e.macros[k] == old(e.macros[k]))
+
+//@ func (*Engine).RunLastMacro
+//@   props C18 C01
+//@   terminates
+//@   requires mvalid(e)
+//@   assigns e.keys.macroKeys, e.keys.mutex
+//@   ensures [feeds-unescaped] len(e.macros) > 0 && len(inputrc.unescs(mget(e.macros, 0))) > 0 && clean(runes(inputrc.unescs(mget(e.macros, 0)))) ==> e.keys.macroKeys == old(e.keys.macroKeys) + runes(inputrc.unescs(mget(e.macros, 0)))
+
+//@ func (*Engine).RunMacro
+//@   props C18 C01
+//@   terminates
+//@   requires mvalid(e)
+//@   assigns e.keys.macroKeys, e.keys.mutex
+//@   ensures [feeds-unescaped] (key == 0 || (key >= '0' && key <= '9') || (key >= 'a' && key <= 'z')) && len(mget(e.macros, key)) > 0 && len(inputrc.unescs(mget(e.macros, key))) > 0 && clean(runes(inputrc.unescs(mget(e.macros, key)))) ==> e.keys.macroKeys == old(e.keys.macroKeys) + runes(inputrc.unescs(mget(e.macros, key)))
+
+//@ func isValidMacroID
+//@   props C18 C01
+//@   terminates
+//@   pure
+//@   ensures (key >= '0' && key <= '9') || (key >= 'a' && key <= 'z') || (key >= 'A' && key <= 'Z') ==> result
